@@ -421,6 +421,19 @@ def c09_structured(seed, tier):
     for fld in ["bus", "vendor", "product", "version"]:
         for ill in ILL + ["65536", "-1"]:
             texts.append(base.replace("  %s = " % fld, "  %s = %s #" % (fld, ill), 1))
+    # [open_rgb]: every colour ill-typed, negative, beyond 24 bits, at the ends of the integer range (the section is
+    # converted last, after everything else has been accepted)
+    dc = d if d["hascolors"] else None
+    for _ in range(20):
+        if dc is not None:
+            break
+        cand = valid_desc(rng, full=True)
+        dc = cand if cand["hascolors"] else None
+    if dc is not None:
+        cbase = render(dc)
+        for k in dc["colors"]:
+            for ill in ILL + ["-1", "-5592406", "-9223372036854775808", "16777216", "4294967295", "9223372036854775807", "0x-1", "-0x1"]:
+                texts.append(cbase.replace("  %s = 0x" % k, "  %s = %s #0x" % (k, ill), 1))
     # byte-order marks, line endings, NULs and blanks around and inside otherwise valid text
     tokens = ["\ufeff", "\n\ufeff", " \t\ufeff", "\ufeff\ufeff", "\r\n", "\r", "\x00", "\ufffe", " " * 300, "\n" * 300,
               "\t", "\u2028", "#", "# \ufeff\n"]
